@@ -462,7 +462,7 @@ func errSx(err error) Sx {
 
 func (s *scriptedServer) relisten() error {
 	addr := s.ln.Addr().String()
-	for i := 0; i < 50; i++ {
+	for i := 0; i < 600; i++ { // up to ~1.2 s: another process may hold the (ephemeral) port for a moment
 		l, err := netListen(addr)
 		if err == nil {
 			s.mu.Lock()
